@@ -212,11 +212,96 @@ def reference(t, fs, x):
 
 
 # --------------------------------------------------------------------------------------
+# matrix packs: channels as ('I', track index or None) | ('C', block gain, [(coeff gain, coeff delay, channel), ...])
+
+
+def from_real(spec):
+    """real TrackSpec -> tuple form"""
+    n = type(spec).__name__
+    if n == "DirectTrackSpec":
+        return ("D", spec.track_index)
+    if n == "SilentTrackSpec":
+        return ("S",)
+    if n == "MixTrackSpec":
+        return ("M", [from_real(c) for c in spec.input_tracks])
+    if n == "GainTrackSpec":
+        return ("G", F(spec.gain), from_real(spec.input_track))
+    if n == "MatrixCoefficientTrackSpec":
+        c = spec.coefficient
+        return ("X", None if c.gain is None else F(c.gain), None if c.delay is None else F(c.delay),
+                from_real(spec.input_track))
+    raise AssertionError(spec)
+
+
+def rand_mchan(rng, fs, dep):
+    if dep <= 1 or rng.random() < 0.3:
+        return ("I", rng.choice([0, 1, 2, None]))
+    return ("C", rng.choice([F(1), F(1), F(2), F(-1, 2)]),
+            [(rng.choice(XGAINS + [F(1, 2)]), rng.choice(DELAYS[fs][:7]), rand_mchan(rng, fs, dep - 1))
+             for _ in range(rng.randint(0, 3))])
+
+
+def mchan_text(c):
+    if c[0] == "I":
+        return "I " + ("S" if c[1] is None else "D %d" % c[1])
+    return " ".join(["C %s %d" % (rat(c[1]), len(c[2]))] + ["%s %s %s" % (rat(g), rat(d), mchan_text(k)) for g, d, k in c[2]])
+
+
+def real_pack_spec(c):
+    """Build ADM channel formats for the channel tree `c`, run the real
+    MatrixAllocationPack.output_channel_allocation and return the track spec it builds for the root channel."""
+    from types import SimpleNamespace as NS
+    from ear.fileio.adm.elements import AudioChannelFormat, AudioBlockFormatMatrix, MatrixCoefficient, TypeDefinition
+    from ear.core.select_items.select_items import _PackAllocator
+
+    alloc = []
+    out = AudioChannelFormat(audioChannelFormatName="out", type=TypeDefinition.DirectSpeakers)
+
+    def mk(c):
+        if c[0] == "I":
+            cf = AudioChannelFormat(audioChannelFormatName="in", type=TypeDefinition.DirectSpeakers)
+            alloc.append((NS(channel_format=cf), None if c[1] is None else NS(track_uid=NS(trackIndex=c[1] + 1))))
+            return cf
+        coeffs = [MatrixCoefficient(inputChannelFormat=mk(k), gain=None if g is None else float(g),
+                                    delay=None if d is None else float(d)) for g, d, k in c[2]]
+        return AudioChannelFormat(audioChannelFormatName="m", type=TypeDefinition.Matrix, audioBlockFormats=[
+            AudioBlockFormatMatrix(matrix=coeffs, gain=float(c[1]), outputChannelFormat=out)])
+
+    root = mk(c)
+    if c[0] == "I":
+        return None  # root channels of a matrix pack are matrix channels
+    pack = _PackAllocator.MatrixAllocationPack(root_pack=NS(audioChannelFormats=[root]), channels=[])
+    [(cf, spec)] = pack.output_channel_allocation(alloc)
+    assert cf is out
+    return spec
+
+
+def reference_mchan(c, fs, x):
+    """What a matrix channel means: sum over coefficients of input channel signal * coefficient gain, delayed,
+    times the block format gain (written from the property text, not via track specs)."""
+    N = x.shape[0]
+    if c[0] == "I":
+        return np.zeros(N) if c[1] is None else x[:, c[1]].copy()
+    acc = np.zeros(N)
+    for g, d, k in c[2]:
+        s = reference_mchan(k, fs, x)
+        if g is not None:
+            s = s * float(g)
+        if d is not None:
+            xs = exact_samples(fs, d)
+            lo = xs.numerator // xs.denominator
+            kk = lo if xs - lo <= F(1, 2) else lo + 1
+            s = np.concatenate([np.zeros(kk), s])[:N]
+        acc = acc + s
+    return acc * float(c[1])
+
+
+# --------------------------------------------------------------------------------------
 # generators
 
 LEAVES = [("D", 0), ("D", 1), ("D", 2), ("S",)]
-GAINS = [F(1), F(2), F(-1, 2)]
-XGAINS = [None, F(1), F(-3, 2)]
+GAINS = [F(1), F(2), F(-1, 2), F(0)]
+XGAINS = [None, F(1), F(-3, 2), F(0)]
 # delays in ms per sample rate, all dyadic: none, zero, sub-sample (down / up), ties, several samples, longer than input
 DELAYS = {
     48000: [None, F(0), F(1, 128), F(1, 64), F(1, 32), F(1, 16), F(5, 32), F(1, 4)],  # 0 .375 .75 1.5 3 7.5 12
@@ -367,9 +452,12 @@ class C20(Spec):
             "delay_rounding_unique",
             "simplify_preserves_meaning",
             "simplify_buildable",
+            "built_processor_eq_meaning",
             "processor_eq_meaning",
-            "track_processor_eq_meaning",
+            "partition_independent",
+            "runR_const",
             "multi_processor_eq_meaning",
+            "multi_empty_raises",
             "matrix_pack_spec_meaning",
         )
     )
@@ -397,7 +485,8 @@ class C20(Spec):
         "over all trees of depth <= 2 / width <= 3 x 2 sample rates x all compositions of the input (trees with a "
         "delay; a fixed partition set for stateless trees) plus partitions with zero-length blocks; a directed family "
         "of two/three delayed coefficient nodes under one mix; seeded random trees of depth 3 (quick) / up to 6 "
-        "(thorough); MultiTrackProcessor on lists of 0-3 such trees; processors built without simplification; "
+        "(thorough); MultiTrackProcessor on lists of 0-3 such trees; random matrix channel trees (encode->decode "
+        "chains, 0-3 coefficients) through the real MatrixAllocationPack.output_channel_allocation; processors built without simplification; "
         "error cases (bad index, negative delay, sample-rate change). non-trivial = tree has a G/X/M node and the "
         "input has >= 2 frames; distinct by (tree, rate, input, partition)"
     )
@@ -415,8 +504,6 @@ class C20(Spec):
                 x = rand_input(rng, 8)
                 if has_delay:
                     parts = list(all8) + [with_empties(rng, rng.choice(all8)) for _ in range(12)]
-                    if ctx.quick:
-                        parts = rng.sample(all8, 40) + parts[-12:] + [(8,), (1,) * 8]
                 else:
                     parts = few
                 for p in parts:
@@ -429,6 +516,9 @@ class C20(Spec):
                 x = rand_input(rng, 8)
                 for p in [rng.choice(all8), rand_partition(rng, 8)]:
                     cases.append(("T", t, fs, x, p, None))
+                # the same spec more than once in a MultiTrackProcessor: every entry has its own delay line
+                if rng.random() < 0.3:
+                    cases.append(("U", [a, b, a] if rng.random() < 0.5 else [t, a, t], fs, x, rand_partition(rng, 8), None))
         # random deeper trees
         n_rand = 2500 if ctx.quick else 60000
         rates = [48000, 44100] if ctx.quick else [48000, 44100, 32000, 8000]
@@ -444,6 +534,8 @@ class C20(Spec):
                 cases.append(("P", t, fs, x, rand_partition(rng, n), None))
             if i % 4 == 0:
                 ts = [t] + [rand_tree(rng, fs, rng.randint(1, dep), 3) for _ in range(rng.randint(0, 2))]
+                if rng.random() < 0.3:
+                    ts.append(rng.choice(ts))
                 cases.append(("U", ts, fs, x, rand_partition(rng, n), None))
         cases.append(("U", [], 48000, rand_input(rng, 4), (2, 2), None))
         cases.append(("U", [], 48000, [], (), None))
@@ -464,9 +556,47 @@ class C20(Spec):
             cases.append((rng.choice("TTP"), t, fs, x, part, r))
         return cases
 
+    def _packs(self, ctx, driver):
+        """MatrixAllocationPack.output_channel_allocation vs the model's packSpec (structure), then the specs it
+        built go through the processor correspondence and the direct predicate like any other spec."""
+        rng = ctx.rng
+        chans = []
+        for i in range(400 if ctx.quick else 5000):
+            fs = rng.choice([48000, 44100])
+            c = rand_mchan(rng, fs, rng.choice([2, 3, 3, 4]))
+            if c[0] == "C":
+                chans.append((fs, c))
+        outs = driver.run(["K|" + mchan_text(c) for _, c in chans])
+        cases = []
+        for (fs, c), mo in zip(chans, outs):
+            real = real_pack_spec(c)
+            t = from_real(real)
+            ctx.case(("pack", mchan_text(c)), True)
+            ctx.count("mode:MatrixAllocationPack.output_channel_allocation")
+            ctx.count("pack:coefficients:%d" % len(c[2]))
+            ctx.count("pack:depth:%d" % depth(t))
+            if to_text(t) == mo:
+                ctx.validated()
+            else:
+                ctx.disagree("output_channel_allocation vs Earverif.TrackSpec.packSpec", mchan_text(c), mo, to_text(t))
+            n = rng.randint(0, 8)
+            x = rand_input(rng, n)
+            part = rand_partition(rng, n)
+            cases.append(("T", t, fs, x, part, None))
+            # direct predicate: the rendered audio of that spec is the matrix sum
+            xa = np.array(x, dtype=float).reshape(n, NCH)
+            got, err = run_real(t, fs, split(xa, part), "T")
+            want = reference_mchan(c, fs, xa).tolist()
+            flat = [v for b in got for v in b]
+            if err is not None or len(flat) != len(want) or not all(close(a, b, is_exact_tree(t)) for a, b in zip(flat, want)):
+                ctx.hit("audio of the spec built for a matrix channel differs from the matrix sum",
+                        {"channel": mchan_text(c), "spec": to_text(t), "sample_rate": fs, "input": x, "partition": list(part)},
+                        {"got": flat, "expected": want, "error": err}, ["c20-matrix-pack"])
+        return cases
+
     def correspond(self, ctx):
         driver = Driver("c20driver", "Earverif.Driver.C20")
-        cases = self._cases(ctx)
+        cases = self._cases(ctx) + self._packs(ctx, driver)
         for i in range(0, len(cases), 20000):
             self._compare(ctx, driver, cases[i:i + 20000])
 
@@ -487,6 +617,8 @@ class C20(Spec):
             xa = np.array(x, dtype=float).reshape(len(x), NCH)
             blocks = split(xa, part)
             real, rerr = run_real(t, fs, blocks, mode, rates)
+            if not np.array_equal(xa, np.array(x, dtype=float).reshape(len(x), NCH)):
+                ctx.hit("process modified its input samples", line, {"input_after": xa.tolist()}, ["c20-input-modified"])
             model, merr = parse_model(mo, mode)
             trees = t if mode == "U" else [t]
             exact = all(is_exact_tree(s) for s in trees)
@@ -507,6 +639,8 @@ class C20(Spec):
         ctx.count("rate:%d" % fs)
         ctx.count("partition:" + partition_shape(part))
         ctx.count("result:" + (rerr or "ok"))
+        if mode == "U":
+            ctx.count("multi:specs:%d" % len(trees) + ("/with-repeated-spec" if len({to_text(t) for t in trees}) < len(trees) else ""))
         if rates is not None:
             ctx.count("partition:with-sample-rate-change")
         for t in trees:
@@ -571,10 +705,10 @@ class C20(Spec):
             fs = rng.choice(rates)
             exact = rng.random() < 0.5
             if exact:
-                gains = [F(1), F(2), F(-1, 2), F(3, 4), F(-3, 2), F(1, 8)]
+                gains = [F(1), F(2), F(-1, 2), F(3, 4), F(-3, 2), F(1, 8), F(0)]
                 delays = [None, F(0)] + [F(rng.randint(0, 64), 2 ** rng.randint(0, 8)) for _ in range(4)]
             else:
-                gains = [F(1)] + [F(rng.uniform(-2, 2)) for _ in range(3)]
+                gains = [F(1), F(0)] + [F(rng.uniform(-2, 2)) for _ in range(3)]
                 delays = [None, F(0)] + [F(rng.uniform(0, 1.5e4 / fs)) for _ in range(3)] + \
                          [F(1000 * rng.randint(0, 12) + rng.choice([499, 500, 501]), fs) for _ in range(2)]
                 delays = [d if d is None else F(float(d)) for d in delays]
@@ -587,6 +721,8 @@ class C20(Spec):
             if i % 5 == 0:
                 mode = "U"
                 trees = [t] + [rand_tree(rng, fs, 3, 3, gains=gains, delays=delays) for _ in range(rng.randint(0, 2))]
+                if rng.random() < 0.3:
+                    trees.append(rng.choice(trees))
             arg = trees if mode == "U" else t
             pa, pb = rand_partition(rng, n), rand_partition(rng, n)
             ra, ea = run_real(arg, fs, split(xa, pa), mode)
@@ -615,9 +751,33 @@ class C20(Spec):
 SPEC = C20()
 
 REGISTRY = dict(
-    text="",
-    note="",
-    technique="Lean 4 proof by structural induction on the spec tree and on the block list + differential "
-    "correspondence with the real TrackProcessor + numpy reference search",
+    text="FULL: Lean theorems over any sample type with +,*,0,1 (x+0=x, 0+x=x, x*1=x, 0*x=0; exact arithmetic): "
+    "Earverif.TrackSpec.processor_eq_meaning proves that TrackProcessor(spec) (= build (simplify spec)) fed any "
+    "partition of the input into blocks, empty blocks included, never raises and returns block by block the literal "
+    "meaning of the spec on the whole input (inputs summed, scaled by the gains, delayed by the rounded coefficient "
+    "delay with zeros shifted in), for every spec tree whose direct indices name an input channel and whose delays "
+    "round to >= 0 samples; simplify_preserves_meaning / simplify_buildable (simplification changes neither the "
+    "meaning nor well-formedness and removes every empty mix), built_processor_eq_meaning (the processors are "
+    "correct for unsimplified trees too), partition_independent, delay_process_eq / delay_eq (Delay.process over "
+    "any partition = prepend d zeros, drop the last d), delay_rounding / delay_rounding_unique (ceil(fs*ms/1000-1/2) "
+    "is the unique k with k-1/2 < x <= k+1/2: nearest sample, exact halves to the earlier one), "
+    "multi_processor_eq_meaning (MultiTrackProcessor = per-block stack of the specs' meanings; ValueError with no "
+    "specs), matrix_pack_spec_meaning (the nested spec built by MatrixAllocationPack.output_channel_allocation means "
+    "sum of coefficient gain x delayed input, times the block gain). The model is tied to the code on every run: "
+    "all trees of depth <= 2 / width <= 3 over 3 channels x 2 sample rates x all 128 compositions of an 8-frame "
+    "integer input (+ partitions with empty blocks), directed multi-delay trees, random deeper trees, "
+    "MultiTrackProcessor, unsimplified processors, error cases and real output_channel_allocation calls are run "
+    "through the real code and the Lean model and compared exactly (dyadic gains); a numpy reference of the literal "
+    "meaning and block-partition independence are searched on the real code alone with non-dyadic gains/delays "
+    "(1e-12).",
+    note="Trusted: Lean kernel; hand transliteration of track_processor.py / delay.Delay.process (one channel) / "
+    "output_channel_allocation + correspondence harness; numpy slice semantics as modelled. Not covered by the "
+    "theorems: float rounding of the sample arithmetic and of the ms->samples formula within 1e-9 samples of a tie "
+    "(searched), integer/float32 input arrays. Outside the quantifier and modelled as errors: direct index outside "
+    "[-nch, nch) (IndexError), delays with fs*ms/1000 <= -1/2 (AssertionError at the first process call), a sample "
+    "rate change between calls once a delay line exists (AssertionError). phase/gainVar/delayVar/phaseVar are not "
+    "read by track_processor.py.",
+    technique="Lean 4 proof by structural induction on the spec tree and on the block list (state-after-prefix "
+    "invariant) + differential correspondence with the real TrackProcessor + numpy reference search",
     design_ref="DESIGN.md section 4, C20",
 )
